@@ -9,6 +9,7 @@ from ..model import ClassInfo, walk_no_nested
 from ..tables import (ElementTable, STANDARD_SYMBOLS, STANDARD_GROUP, STANDARD_PERIOD, ROMAN, compile_valence_rules,
                       pyx_source, pyx_list_assign, pyx_decl_len, pyx_import_names)
 from ..bits import matcher_layout, charge_bounds
+from ..r_hygiene import rule_hygiene as _rule_hygiene
 
 LEVEL = 'proof'
 PACK = 'chython/containers/_pack_v2.pyx'
@@ -282,6 +283,7 @@ def run(ck, repo):
     ck.floor('C18.2-isotopes', 118 * 4)
     ck.floor('C18.3-representable', 400)
     ck.floor('C18.4-duplicates', 118)
+    _rule_hygiene(ck, repo, 'C18.H-dataflow-hygiene', 'C18')
 
 
 def first_diff(a, b):
